@@ -289,14 +289,16 @@ structure Inv (f8 : Bool) (s : St μ π) : Prop where
   absent : s.w = .absent → s.printed = [] ∧ s.consumed = []
   /-- with `join().ok()` the main thread never panics -/
   aborted : f8 = true → s.m ≠ .aborted
+  /-- with `join().unwrap()` (before the repair of F8) `wait_cancel` gets past its first join only if C did not panic -/
+  preF8 : f8 = false → s.m = .joinW ∨ s.m = .returned → s.cOk = true
 
 theorem inv_init (f8 writer timer : Bool) : Inv f8 (init writer timer : St μ π) := by
   cases writer <;> cases timer <;> constructor <;> simp [init, lastBest]
 
 local macro "step_inv" h:ident hs:ident s:ident : tactic => `(tactic| (
-  obtain ⟨h1, h2, h3, h4, h5, h6, h7, h8, h9, h10, h11, h12, h13, h14, h15, h16, h17, h18, h19, h20, h21, h22⟩ := $h
+  obtain ⟨h1, h2, h3, h4, h5, h6, h7, h8, h9, h10, h11, h12, h13, h14, h15, h16, h17, h18, h19, h20, h21, h22, h23⟩ := $h
   obtain ⟨m, c, ss, w, t, sOk, cOk, art, q1, sink, rx1, q2, tx2, tx3, tt, rx2, flag, best, em, co, pr, sf, inj, re⟩ := $s
-  simp only at h1 h2 h3 h4 h5 h6 h7 h8 h9 h10 h11 h12 h13 h14 h15 h16 h17 h18 h19 h20 h21 h22
+  simp only at h1 h2 h3 h4 h5 h6 h7 h8 h9 h10 h11 h12 h13 h14 h15 h16 h17 h18 h19 h20 h21 h22 h23
   unfold step at $hs:ident
   simp only at $hs:ident
   (repeat' split at $hs:ident) <;> (try cases $hs:ident) <;> constructor <;> simp_all <;> (first | omega | grind)))
@@ -367,9 +369,7 @@ theorem writer_reachable {f8 writer timer : Bool} {s : St μ π} (h : Reachable 
     rename_i s1 s2
     rw [← ih]
     obtain ⟨m, c, ss, w, t, sOk, cOk, art, q1, sink, rx1, q2, tx2, tx3, tt, rx2, flag, best, em, co, pr, sf, inj, re⟩ := s1
-    unfold step at hs
-    simp only at hs
-    cases a <;> simp only at hs <;> (repeat' split at hs) <;> (try cases hs) <;> simp_all
+    cases a <;> (unfold step at hs; simp only at hs; (repeat' split at hs) <;> (try cases hs)) <;> simp_all
 
 theorem runActs_reachable {f8 writer timer : Bool} : ∀ (acts : List (Act μ π)) {s s' : St μ π},
     Reachable f8 writer timer s → runActs f8 s acts = some s' → Reachable f8 writer timer s' := by
@@ -417,9 +417,7 @@ theorem printed_done {f8 : Bool} {s : St μ π} (h : Inv f8 s) (hw : s.w = .done
 theorem step_mono {f8 : Bool} {s s' : St μ π} {a : Act μ π} (hs : step f8 s a = some s') :
     (∃ l, s'.printed = s.printed ++ l) ∧ (∃ l, s'.emitted = s.emitted ++ l) := by
   obtain ⟨m, c, ss, w, t, sOk, cOk, art, q1, sink, rx1, q2, tx2, tx3, tt, rx2, flag, best, em, co, pr, sf, inj, re⟩ := s
-  unfold step at hs
-  simp only at hs
-  cases a <;> simp only at hs <;> (repeat' split at hs) <;> (try cases hs) <;>
+  cases a <;> (unfold step at hs; simp only at hs; (repeat' split at hs) <;> (try cases hs)) <;>
     first
     | exact ⟨⟨[], (List.append_nil _).symm⟩, ⟨[], (List.append_nil _).symm⟩⟩
     | exact ⟨⟨_, rfl⟩, ⟨[], (List.append_nil _).symm⟩⟩
@@ -437,9 +435,7 @@ theorem returned_stable {f8 : Bool} {s s' : St μ π} {a : Act μ π} (h : Inv f
   obtain ⟨m, c, ss, w, t, sOk, cOk, art, q1, sink, rx1, q2, tx2, tx3, tt, rx2, flag, best, em, co, pr, sf, inj, re⟩ := s
   simp only at hm hc hsd hw
   subst hm hc hsd
-  unfold step at hs
-  simp only at hs
-  cases a <;> simp only at hs <;> (repeat' split at hs) <;> (try cases hs) <;> simp_all
+  cases a <;> (unfold step at hs; simp only at hs; (repeat' split at hs) <;> (try cases hs)) <;> simp_all
 
 /-! ## liveness: the ranking argument -/
 
@@ -485,21 +481,25 @@ def Over (s : St μ π) : Prop := s.m = .returned ∨ s.m = .aborted
 def lexLt (a b : Nat × Nat) : Prop := a.1 < b.1 ∨ (a.1 = b.1 ∧ a.2 < b.2)
 
 theorem lexLt_wf : WellFounded lexLt := by
-  have h : ∀ a b, lexLt a b → (Prod.Lex (· < ·) (· < ·)) a b := by
-    rintro ⟨a1, a2⟩ ⟨b1, b2⟩ (h | ⟨h1, h2⟩)
-    · exact Prod.Lex.left _ _ h
-    · simp only at h1 h2; subst h1; exact Prod.Lex.right _ h2
-  exact Subrelation.wf (h _ _) (WellFounded.prod_lex Nat.lt_wfRel.wf Nat.lt_wfRel.wf)
+  refine Subrelation.wf ?_ (Prod.lex Nat.lt_wfRel Nat.lt_wfRel).wf
+  rintro ⟨a1, a2⟩ ⟨b1, b2⟩ (h | ⟨h1, h2⟩)
+  · exact Prod.Lex.left _ _ h
+  · simp only at h1 h2; subst h1; exact Prod.Lex.right _ h2
 
 /-- **no deadlock**: while M waits, the helpful action is enabled, and it is one of the guaranteed (fair) actions -/
 theorem enabled_helpful {f8 : Bool} {s : St μ π} (h : Inv f8 s) (hw : Waiting s) :
     (step f8 s (helpful s)).isSome = true ∧ (helpful s).fair = true := by
-  obtain ⟨h1, h2, h3, h4, h5, h6, h7, h8, h9, h10, h11, h12, h13, h14, h15, h16, h17, h18, h19, h20, h21, h22⟩ := h
+  obtain ⟨h1, h2, h3, h4, h5, h6, h7, h8, h9, h10, h11, h12, h13, h14, h15, h16, h17, h18, h19, h20, h21, h22, h23⟩ := h
   obtain ⟨m, c, ss, w, t, sOk, cOk, art, q1, sink, rx1, q2, tx2, tx3, tt, rx2, flag, best, em, co, pr, sf, inj, re⟩ := s
-  simp only at h1 h2 h3 h4 h5 h6 h7 h8 h9 h10 h11 h12 h13 h14 h15 h16 h17 h18 h19 h20 h21 h22
+  simp only at h1 h2 h3 h4 h5 h6 h7 h8 h9 h10 h11 h12 h13 h14 h15 h16 h17 h18 h19 h20 h21 h22 h23
   simp only [Waiting] at hw
-  cases ss <;> cases c <;> cases w <;> cases q1 <;> rcases hw with rfl | rfl <;>
-    simp_all [helpful, step, Act.fair]
+  cases ss with
+  | run => cases c <;> cases flag <;> rcases hw with rfl | rfl <;> simp_all [helpful, step, Act.fair]
+  | sendStop => rcases hw with rfl | rfl <;> simp_all [helpful, step, Act.fair]
+  | unwind => cases sink <;> cases tx3 <;> rcases hw with rfl | rfl <;> simp_all [helpful, step, Act.fair]
+  | done =>
+    cases c <;> cases w <;> cases q1 <;> rcases hw with rfl | rfl <;> simp_all [helpful, step, Act.fair] <;>
+      (repeat' split) <;> rfl
 
 /-- the conclusion of the ranking rule for one step -/
 def Progress (a : Act μ π) (s s' : St μ π) : Prop :=
@@ -507,9 +507,9 @@ def Progress (a : Act μ π) (s s' : St μ π) : Prop :=
     (a ≠ helpful s ∧ (rank1 s', rank2 s') = (rank1 s, rank2 s) ∧ helpful s' = helpful s)))
 
 local macro "live_tac" h:ident hs:ident s:ident : tactic => `(tactic| (
-  obtain ⟨h1, h2, h3, h4, h5, h6, h7, h8, h9, h10, h11, h12, h13, h14, h15, h16, h17, h18, h19, h20, h21, h22⟩ := $h
+  obtain ⟨h1, h2, h3, h4, h5, h6, h7, h8, h9, h10, h11, h12, h13, h14, h15, h16, h17, h18, h19, h20, h21, h22, h23⟩ := $h
   obtain ⟨m, c, ss, w, t, sOk, cOk, art, q1, sink, rx1, q2, tx2, tx3, tt, rx2, flag, best, em, co, pr, sf, inj, re⟩ := $s
-  simp only at h1 h2 h3 h4 h5 h6 h7 h8 h9 h10 h11 h12 h13 h14 h15 h16 h17 h18 h19 h20 h21 h22
+  simp only at h1 h2 h3 h4 h5 h6 h7 h8 h9 h10 h11 h12 h13 h14 h15 h16 h17 h18 h19 h20 h21 h22 h23
   unfold step at $hs:ident
   simp only at $hs:ident
   (repeat' split at $hs:ident) <;> (try cases $hs:ident) <;>
@@ -616,21 +616,30 @@ theorem timer_never_blocks {f8 : Bool} {s s' : St μ π} {b a : Act μ π} (hb :
     (hs : step f8 s b = some s') (ha : a.proc ≠ .T) (hen : (step f8 s a).isSome = true) :
     (step f8 s' a).isSome = true := by
   obtain ⟨m, c, ss, w, t, sOk, cOk, art, q1, sink, rx1, q2, tx2, tx3, tt, rx2, flag, best, em, co, pr, sf, inj, re⟩ := s
+  have hm : m ≠ .aborted := by
+    intro e; subst e; simp [step] at hs
   cases b <;> simp only [Act.proc, reduceCtorEq] at hb <;>
-    (unfold step at hs; simp only at hs; (repeat' split at hs) <;> (try cases hs)) <;>
+    (unfold step at hs; simp only [hm, if_false] at hs; split at hs) <;> (try cases hs) <;>
     (cases a <;> simp only [Act.proc, reduceCtorEq, ne_eq, not_true_eq_false, not_false_eq_true] at ha <;>
-      (unfold step at hen ⊢; simp_all) <;> (try split) <;> simp_all <;> (try omega))
+      (simp only [step, hm, if_false] at hen ⊢) <;> (repeat' split at hen) <;> simp_all <;> (try omega) <;>
+      (repeat' split) <;> simp_all <;> (try omega))
+
+/-- a state with T's own part and the number of queued `Stop`s forgotten -/
+def forgetTimer (s : St μ π) : St μ π := { s with q2 := 0, t := .done, tt := false }
 
 /-- equal up to T's own state and the number of queued `Stop`s, of which C will read at most one: either C is past its
 `recv`, or both queues are non-empty -/
 def StopEquiv (s u : St μ π) : Prop :=
-  { s with q2 := 0, t := .done, tt := false } = { u with q2 := 0, t := .done, tt := false } ∧
-  (s.c ≠ .recv ∨ (0 < s.q2 ∧ 0 < u.q2))
+  forgetTimer s = forgetTimer u ∧ (s.c ≠ .recv ∨ (0 < s.q2 ∧ 0 < u.q2))
+
+theorem StopEquiv.refl {s : St μ π} (h : s.c ≠ .recv ∨ 0 < s.q2) : StopEquiv s s :=
+  ⟨rfl, h.imp id (fun h => ⟨h, h⟩)⟩
 
 theorem StopEquiv.symm {s u : St μ π} (h : StopEquiv s u) : StopEquiv u s := by
   obtain ⟨h1, h2⟩ := h
   refine ⟨h1.symm, ?_⟩
-  have hc : s.c = u.c := congrArg St.c h1
+  have hc' := congrArg St.c h1
+  have hc : s.c = u.c := hc'
   rcases h2 with h2 | ⟨h2, h3⟩
   · exact Or.inl (hc ▸ h2)
   · exact Or.inr ⟨h3, h2⟩
@@ -638,22 +647,26 @@ theorem StopEquiv.symm {s u : St μ π} (h : StopEquiv s u) : StopEquiv u s := b
 /-- `StopEquiv` states agree on everything observable: program counters of M, C, S, W, flag, channel 1, outputs -/
 theorem StopEquiv.obs {s u : St μ π} (h : StopEquiv s u) :
     s.m = u.m ∧ s.c = u.c ∧ s.s = u.s ∧ s.w = u.w ∧ s.flag = u.flag ∧ s.q1 = u.q1 ∧ s.printed = u.printed ∧
-    s.emitted = u.emitted ∧ s.artifact = u.artifact ∧ s.sOk = u.sOk ∧ s.cOk = u.cOk := by
+    s.emitted = u.emitted ∧ s.consumed = u.consumed ∧ s.artifact = u.artifact ∧ s.sOk = u.sOk ∧ s.cOk = u.cOk := by
   obtain ⟨h1, _⟩ := h
-  exact ⟨congrArg St.m h1, congrArg St.c h1, congrArg St.s h1, congrArg St.w h1, congrArg St.flag h1,
-    congrArg St.q1 h1, congrArg St.printed h1, congrArg St.emitted h1, congrArg St.artifact h1, congrArg St.sOk h1,
-    congrArg St.cOk h1⟩
+  have e1 := congrArg St.m h1; have e2 := congrArg St.c h1; have e3 := congrArg St.s h1
+  have e4 := congrArg St.w h1; have e5 := congrArg St.flag h1; have e6 := congrArg St.q1 h1
+  have e7 := congrArg St.printed h1; have e8 := congrArg St.emitted h1; have e9 := congrArg St.consumed h1
+  have e10 := congrArg St.artifact h1; have e11 := congrArg St.sOk h1; have e12 := congrArg St.cOk h1
+  exact ⟨e1, e2, e3, e4, e5, e6, e7, e8, e9, e10, e11, e12⟩
 
 /-- steps of T are invisible -/
 theorem stopEquiv_timer {f8 : Bool} {s u s' : St μ π} {b : Act μ π} (h : StopEquiv s u) (hb : b.proc = .T)
     (hs : step f8 s b = some s') : StopEquiv s' u := by
   obtain ⟨h1, h2⟩ := h
   obtain ⟨m, c, ss, w, t, sOk, cOk, art, q1, sink, rx1, q2, tx2, tx3, tt, rx2, flag, best, em, co, pr, sf, inj, re⟩ := s
+  have hm : m ≠ .aborted := by
+    intro e; subst e; simp [step] at hs
   cases b <;> simp only [Act.proc, reduceCtorEq] at hb <;>
-    (unfold step at hs; simp only at hs; (repeat' split at hs) <;> (try cases hs)) <;>
+    (unfold step at hs; simp only [hm, if_false] at hs; split at hs) <;> (try cases hs) <;>
     (refine ⟨h1, ?_⟩; simp only at h2 ⊢; rcases h2 with h2 | ⟨h2, h3⟩
      · exact Or.inl h2
-     · refine Or.inr ⟨?_, h3⟩; split <;> omega)
+     · refine Or.inr ⟨?_, h3⟩; (try split) <;> omega)
 
 /-- every step of M, C, S, W from one of two `StopEquiv` states is matched by the same action from the other -/
 theorem stopEquiv_step {f8 : Bool} {s u s' : St μ π} {a : Act μ π} (h : StopEquiv s u) (ha : a.proc ≠ .T)
@@ -662,13 +675,119 @@ theorem stopEquiv_step {f8 : Bool} {s u s' : St μ π} {a : Act μ π} (h : Stop
   obtain ⟨m, c, ss, w, t, sOk, cOk, art, q1, sink, rx1, q2, tx2, tx3, tt, rx2, flag, best, em, co, pr, sf, inj, re⟩ := s
   obtain ⟨m', c', ss', w', t', sOk', cOk', art', q1', sink', rx1', q2', tx2', tx3', tt', rx2', flag', best', em',
     co', pr', sf', inj', re'⟩ := u
-  simp only [St.mk.injEq, true_and, and_true] at h1
+  simp only [forgetTimer, St.mk.injEq, true_and] at h1
   obtain ⟨rfl, rfl, rfl, rfl, rfl, rfl, rfl, rfl, rfl, rfl, rfl, rfl, rfl, rfl, rfl, rfl, rfl, rfl, rfl, rfl, rfl⟩ := h1
   simp only at h2
-  unfold step at hs
-  simp only at hs
+  have hm : m ≠ .aborted := by
+    intro e; subst e; simp [step] at hs
   cases a <;> simp only [Act.proc, reduceCtorEq, ne_eq, not_true_eq_false, not_false_eq_true] at ha <;>
-    simp only at hs <;> (repeat' split at hs) <;> (try cases hs) <;>
-    simp_all [step, StopEquiv] <;> (try omega)
+    (unfold step at hs; simp only [hm, if_false] at hs; (repeat' split at hs) <;> (try cases hs)) <;>
+    simp_all [step, StopEquiv, forgetTimer] <;> (try omega)
+/-! ## runs -/
 
+theorem runActs_inv {f8 : Bool} : ∀ (acts : List (Act μ π)) {s s' : St μ π}, Inv f8 s →
+    runActs f8 s acts = some s' → Inv f8 s' := by
+  intro acts
+  induction acts with
+  | nil => intro s s' h hr; simp only [runActs, Option.some.injEq] at hr; subst hr; exact h
+  | cons a r ih =>
+    intro s s' h hr
+    unfold runActs at hr
+    cases hs : step f8 s a with
+    | none => rw [hs] at hr; cases hr
+    | some s1 => rw [hs] at hr; exact ih (inv_step h hs) hr
+
+/-- along a run the printed lines and the emitted events only grow -/
+theorem runActs_mono {f8 : Bool} : ∀ (acts : List (Act μ π)) {s s' : St μ π}, runActs f8 s acts = some s' →
+    (∃ l, s'.printed = s.printed ++ l) ∧ (∃ l, s'.emitted = s.emitted ++ l) := by
+  intro acts
+  induction acts with
+  | nil =>
+    intro s s' hr; simp only [runActs, Option.some.injEq] at hr; subst hr
+    exact ⟨⟨[], (List.append_nil _).symm⟩, ⟨[], (List.append_nil _).symm⟩⟩
+  | cons a r ih =>
+    intro s s' hr
+    unfold runActs at hr
+    cases hs : step f8 s a with
+    | none => rw [hs] at hr; cases hr
+    | some s1 =>
+      rw [hs] at hr
+      obtain ⟨⟨l1, e1⟩, ⟨l2, e2⟩⟩ := step_mono hs
+      obtain ⟨⟨l3, e3⟩, ⟨l4, e4⟩⟩ := ih hr
+      exact ⟨⟨l1 ++ l3, by rw [e3, e1, List.append_assoc]⟩, ⟨l2 ++ l4, by rw [e4, e2, List.append_assoc]⟩⟩
+
+/-- after `wait_cancel` has returned, nothing of this search is printed any more, whatever the other threads still do -/
+theorem runActs_returned_stable {f8 : Bool} : ∀ (acts : List (Act μ π)) {s s' : St μ π}, Inv f8 s →
+    s.m = .returned → runActs f8 s acts = some s' →
+    s'.m = .returned ∧ s'.printed = s.printed ∧ s'.emitted = s.emitted ∧ s'.artifact = s.artifact ∧
+    s'.consumed = s.consumed := by
+  intro acts
+  induction acts with
+  | nil =>
+    intro s s' _ hm hr; simp only [runActs, Option.some.injEq] at hr; subst hr
+    exact ⟨hm, rfl, rfl, rfl, rfl⟩
+  | cons a r ih =>
+    intro s s' h hm hr
+    unfold runActs at hr
+    cases hs : step f8 s a with
+    | none => rw [hs] at hr; cases hr
+    | some s1 =>
+      rw [hs] at hr
+      obtain ⟨e1, e2, e3, e4, e5⟩ := returned_stable h hm hs
+      obtain ⟨g1, g2, g3, g4, g5⟩ := ih (inv_step h hs) e1 hr
+      exact ⟨g1, g2.trans e2, g3.trans e3, g4.trans e4, g5.trans e5⟩
+
+/-- `injected` records exactly whether `sPanic` was taken -/
+theorem step_injected {f8 : Bool} {s s' : St μ π} {a : Act μ π} (hs : step f8 s a = some s') :
+    (s'.injected = true ↔ s.injected = true ∨ a = .sPanic) := by
+  obtain ⟨m, c, ss, w, t, sOk, cOk, art, q1, sink, rx1, q2, tx2, tx3, tt, rx2, flag, best, em, co, pr, sf, inj, re⟩ := s
+  cases a <;> (unfold step at hs; simp only at hs; (repeat' split at hs) <;> (try cases hs)) <;> simp
+
+theorem runActs_injected {f8 : Bool} : ∀ (acts : List (Act μ π)) {s s' : St μ π}, runActs f8 s acts = some s' →
+    (s'.injected = true ↔ s.injected = true ∨ Act.sPanic ∈ acts) := by
+  intro acts
+  induction acts with
+  | nil => intro s s' hr; simp only [runActs, Option.some.injEq] at hr; subst hr; simp
+  | cons a r ih =>
+    intro s s' hr
+    unfold runActs at hr
+    cases hs : step f8 s a with
+    | none => rw [hs] at hr; cases hr
+    | some s1 =>
+      rw [hs] at hr
+      rw [ih hr, step_injected hs, List.mem_cons]
+      constructor
+      · rintro ((h | h) | h)
+        · exact Or.inl h
+        · exact Or.inr (Or.inl h.symm)
+        · exact Or.inr (Or.inr h)
+      · rintro (h | h | h)
+        · exact Or.inl (Or.inl h)
+        · exact Or.inl (Or.inr h.symm)
+        · exact Or.inr h
+
+/-- a state in which NO action is enabled: `wait_cancel` is over and every thread has ended -/
+theorem terminal_state {f8 : Bool} {s : St μ π} (h : Inv f8 s) (hno : ∀ a : Act μ π, (step f8 s a).isSome = false) :
+    (s.m = .returned ∨ s.m = .aborted) ∧
+    (s.m = .returned → s.c = .done ∧ s.s = .done ∧ (s.w = .done ∨ s.w = .absent) ∧ s.t = .done) := by
+  have hm : s.m = .returned ∨ s.m = .aborted := by
+    cases hmm : s.m with
+    | idle =>
+      have := hno .mCall
+      simp [step, hmm] at this
+    | joinC =>
+      have := (enabled_helpful h (Or.inl hmm)).1
+      rw [hno] at this; cases this
+    | joinW =>
+      have := (enabled_helpful h (Or.inr hmm)).1
+      rw [hno] at this; cases this
+    | returned => exact Or.inl rfl
+    | aborted => exact Or.inr rfl
+  refine ⟨hm, fun hr => ?_⟩
+  have hc := (h.m_past (Or.inr hr)).1
+  refine ⟨hc, (h.c_done hc).1, h.m_ret hr, ?_⟩
+  cases ht : s.t with
+  | waiting => have := hno .tFire; simp [step, hr, ht] at this
+  | fired => have := hno .tExit; simp [step, hr, ht] at this
+  | done => rfl
 end Wee.Threads
